@@ -162,7 +162,7 @@ Lemma call_S : forall f s sel args kwargs, call (S f) s sel args kwargs =
   | Some c =>
       if existsb is_req (skipn (List.length (supplied_positional_names (c_sig c) args)) args)
       then (s, Raise "ValueError") else
-      let new_kwargs := prep_bindings (config s) (current_scope s) c args in
+      let new_kwargs := prep_bindings (config s) (current_scope s) c args kwargs in
       let s0 := oper_update s (scope_str (current_scope s), sel) (prep_operative c args kwargs new_kwargs) in
       let '(s1, rk) := go_kw (eval f) s0 new_kwargs in
       call_tail f c sel (scope_str (current_scope s)) args kwargs s1 rk
